@@ -69,6 +69,61 @@ namespace xv
         return 0;
     }
 
+    // interleaved memory forms: the operand / result passes through an array of std::complex<T> ((re, im) pairs)
+    // FORM 0: load_unaligned(complex*), 1: load_aligned, 2: store_unaligned(complex*), 3: store_aligned
+    template <class T, int FORM>
+    int cmem(const void* const* in, void* const* out, size_t n, xv_ctx*)
+    {
+        constexpr size_t L = B<T>::size;
+        alignas(64) std::complex<T> buf[L + 1];
+        for (size_t i = 0; i + L <= n; i += L)
+        {
+            const T* re = (const T*)in[0] + i;
+            const T* im = (const T*)in[1] + i;
+            if constexpr (FORM < 2)
+            {
+                std::complex<T>* p = FORM == 0 ? buf + 1 : buf; // buf + 1 is aligned on sizeof(complex<T>) only
+                for (size_t k = 0; k < L; ++k)
+                    p[k] = std::complex<T>(re[k], im[k]);
+                CB<T> r = FORM == 0 ? CB<T>::load_unaligned(p) : CB<T>::load_aligned(p);
+                r.real().store_unaligned((T*)out[0] + i);
+                r.imag().store_unaligned((T*)out[1] + i);
+            }
+            else
+            {
+                std::complex<T>* p = FORM == 2 ? buf + 1 : buf;
+                CB<T> r(B<T>::load_unaligned(re), B<T>::load_unaligned(im));
+                if (FORM == 2)
+                    r.store_unaligned(p);
+                else
+                    r.store_aligned(p);
+                for (size_t k = 0; k < L; ++k)
+                {
+                    ((T*)out[0])[i + k] = p[k].real();
+                    ((T*)out[1])[i + k] = p[k].imag();
+                }
+            }
+        }
+        return 0;
+    }
+    template <class T, int FORM>
+    void cmemreg(const char* name)
+    {
+        xv_op o;
+        std::memset(&o, 0, sizeof o);
+        o.prop = "C16";
+        o.name = name;
+        o.elem = tcode<T>::value;
+        o.nin = 2;
+        for (int k = 0; k < 4; ++k)
+            o.in_t[k] = tcode<T>::value;
+        o.nout = 2;
+        o.out_t[0] = o.out_t[1] = tcode<T>::value;
+        o.lanes = (int)B<T>::size; // kind 0
+        o.fn = &cmem<T, FORM>;
+        registry().push_back(o);
+    }
+
     // the op table entry reuses xv_op: nin/nout count real arrays
     template <class T, class F, int KIND>
     void creg(const char* name)
@@ -178,6 +233,10 @@ namespace xv
         creg<T, c_tan, 0>("c.tan");
         creg<T, c_tanh, 0>("c.tanh");
         creg<T, c_pow, 4>("c.pow");
+        cmemreg<T, 0>("c.load_unaligned");
+        cmemreg<T, 1>("c.load_aligned");
+        cmemreg<T, 2>("c.store_unaligned");
+        cmemreg<T, 3>("c.store_aligned");
     }
     void register_ops()
     {
